@@ -34,6 +34,8 @@ func checkC03(c *Ctx) {
 	rStaleInstall(c, "R03.9 replaced-service-is-never-reinstalled", "SetRolloutTargets", "service-looked-up-before-the-health-wait-installed-after")
 	// the drain timeout given to `stop` / `pause` / `deploy` is the one the proxy drains with (shared with C20)
 	rFlagsBoundToCommand(c, "R03.10 flags-bound-to-the-command-object")
+	rRefusalIsFinal(c, "R03.11 refusal-is-final")
+	rRequestContextChain(c, "R03.12 request-context-chain-unbroken")
 }
 
 func isLoadOfGlobal(v ssa.Value, g *ssa.Global) bool {
@@ -786,4 +788,106 @@ func rDrainKeepsHealthVerdict(c *Ctx, rule string) {
 		return
 	}
 	drainRestores(c, rule, fn, upd, mark, draining)
+}
+
+// R03.11 a refusal is final: a request asks the balancer for a target once. A target that is draining refuses
+// (StartRequest's ErrorDraining, R03.2) and the request is answered 503 there and then; asking again - in a loop, after
+// a pause, from a second call site - lets a request that arrived during the drain outwait it and reach the target after
+// Drain has put its old state back, i.e. after deploy / pause / stop returned.
+func rRefusalIsFinal(c *Ctx, rule string) {
+	c.floor(rule, 2)
+	claim := c.method("LoadBalancer", "claimTarget")
+	serve := c.method("LoadBalancer", "ServeHTTP")
+	n := 0
+	for _, u := range c.usesOfFunc(claim) {
+		o := outer(u.in)
+		c.ob(rule, "call claimTarget <- "+fname(o), u.instr.Pos(), o == serve && u.kind == "call", false, "targets are claimed for a request by LoadBalancer.ServeHTTP only")
+		if o != serve {
+			continue
+		}
+		n++
+		c.ob(rule, "ServeHTTP/claim-not-repeated", u.instr.Pos(), !inLoop(u.instr.Block()) && u.in == serve, true, "the claim is made once per request: not in a loop (or in a function literal that may run more than once)")
+	}
+	c.ob(rule, "ServeHTTP/claims-once", serve.Pos(), n == 1, true, fmt.Sprintf("%d claimTarget calls in ServeHTTP; a second one is a retry after a refusal", n))
+}
+
+// R03.12 the request that goes to the target carries the context Target.StartRequest registered: cancelling that context
+// is the only means Drain has to cut a request off at the deadline. Wherever request-path code gives a request a context
+// (WithContext / Clone / NewRequestWithContext), that context descends from the context of a request
+// (r.Context(), possibly through context.With*) and not from Background / TODO / WithoutCancel, which cut the chain.
+func rRequestContextChain(c *Ctx, rule string) {
+	c.floor(rule, 4)
+	var trace func(v ssa.Value, depth int) string
+	trace = func(v ssa.Value, depth int) string {
+		if depth > 8 {
+			return "?"
+		}
+		worst := ""
+		for _, src := range phiSources(v) {
+			src = resolve(src)
+			r := "?"
+			switch x := src.(type) {
+			case *ssa.Call:
+				name := ""
+				if f := x.Call.StaticCallee(); f != nil {
+					name = f.String()
+				}
+				switch {
+				case name == "(*net/http.Request).Context":
+					r = "request"
+				case name == "context.Background" || name == "context.TODO" || name == "context.WithoutCancel":
+					r = "cut:" + name
+				case strings.HasPrefix(name, "context.With") && len(x.Call.Args) > 0:
+					r = trace(x.Call.Args[0], depth+1)
+				}
+			case *ssa.Extract:
+				if call, ok := x.Tuple.(*ssa.Call); ok {
+					if f := call.Call.StaticCallee(); f != nil && strings.HasPrefix(f.String(), "context.With") && len(call.Call.Args) > 0 && x.Index == 0 {
+						if f.String() == "context.WithoutCancel" {
+							r = "cut:context.WithoutCancel"
+						} else {
+							r = trace(call.Call.Args[0], depth+1)
+						}
+					}
+				}
+			}
+			if strings.HasPrefix(r, "cut:") {
+				return r
+			}
+			if worst == "" || r == "?" {
+				worst = r
+			}
+		}
+		return worst
+	}
+	for _, fn := range c.modFuncs {
+		if fn.Pkg != c.server || len(fn.Blocks) == 0 {
+			continue
+		}
+		o := outer(fn)
+		if recv := o.Signature.Recv(); recv != nil && strings.HasSuffix(typeString(recv.Type()), ".HealthCheck") {
+			continue // probes are the proxy's own requests: their context is the health check's
+		}
+		for _, b := range fn.Blocks {
+			for _, in := range b.Instrs {
+				ci, ok := in.(ssa.CallInstruction)
+				if !ok || ci.Common().StaticCallee() == nil {
+					continue
+				}
+				name := ci.Common().StaticCallee().String()
+				var ctx ssa.Value
+				switch name {
+				case "(*net/http.Request).WithContext", "(*net/http.Request).Clone":
+					ctx = ci.Common().Args[1]
+				case "net/http.NewRequestWithContext":
+					ctx = ci.Common().Args[0]
+				default:
+					continue
+				}
+				r := trace(ctx, 0)
+				c.ob(rule, fname(o)+"/"+name[strings.LastIndex(name, ".")+1:]+"-keeps-the-request's-context", in.Pos(), !strings.HasPrefix(r, "cut:"), true,
+					"context given to the request descends from: "+r+" (a context cut off from the request's can no longer be cancelled by Drain at the deadline)")
+			}
+		}
+	}
 }
